@@ -32,6 +32,7 @@ func init() {
 		"c10stress":   c10Stress,
 		"keycheck":    keyCheck,
 		"c06corpus":   c06Corpus,
+		"c03replay":   c03Replay,
 	}})
 }
 
